@@ -29,18 +29,18 @@ func newGoMapObject(value reflect.Value) *goMapObject {
 	}
 }
 
-func (o goMapObject) toKey(name string) reflect.Value {
+func (o goMapObject) toKey(rt *runtime, name string) reflect.Value {
 	reflectValue, err := stringToReflectValue(name, o.keyType.Kind())
 	if err != nil {
-		panic(err)
+		panic(rt.panicConversionError(err))
 	}
 	return reflectValue
 }
 
-func (o goMapObject) toValue(value Value) reflect.Value {
+func (o goMapObject) toValue(rt *runtime, value Value) reflect.Value {
 	reflectValue, err := value.toReflectValue(o.valueType)
 	if err != nil {
-		panic(err)
+		panic(rt.panicConversionError(err))
 	}
 	return reflectValue
 }
@@ -96,13 +96,18 @@ func goMapDefineOwnProperty(obj *object, name string, descriptor property, throw
 	if !descriptor.isDataDescriptor() {
 		return obj.runtime.typeErrorResult(throw)
 	}
-	goObj.value.SetMapIndex(goObj.toKey(name), goObj.toValue(descriptor.value.(Value)))
+	goObj.value.SetMapIndex(goObj.toKey(obj.runtime, name), goObj.toValue(obj.runtime, descriptor.value.(Value)))
 	return true
 }
 
 func goMapDelete(obj *object, name string, throw bool) bool {
 	goObj := obj.value.(*goMapObject)
-	goObj.value.SetMapIndex(goObj.toKey(name), reflect.Value{})
+	// a name that cannot be a key of this map names nothing: there is nothing to delete
+	key, err := stringToReflectValue(name, goObj.keyType.Kind())
+	if err != nil {
+		return true
+	}
+	goObj.value.SetMapIndex(key, reflect.Value{})
 	// FIXME
 	return true
 }
